@@ -339,9 +339,9 @@ class Interp:
         if m is None and inspect.ismethod(fn):
             m = self.models.get(id(fn.__func__))
             if m is not None:
-                return m(self, fn.__self__, *args, **kwargs)
+                return self._call_model(m, fn, (fn.__self__,) + tuple(args), kwargs)
         if m is not None:
-            return m(self, *args, **kwargs)
+            return self._call_model(m, fn, args, kwargs)
         if callable(fn) and (getattr(fn, "__module__", None) or "").split(".")[0] in ("pyvc", "contracts"):
             try:
                 return fn(*args, **kwargs)  # theory / contract code: runs natively on symbolic values
@@ -399,6 +399,16 @@ class Interp:
             if k == 1:
                 raise PyExc(self.make_exc(OtherException))
         return SAny(name=f"ret_{name}")
+
+    def _call_model(self, m, fn, args, kwargs):
+        """a theory model of a library function: a value outside its vocabulary (a real library object reaching theory code) makes
+        the call UNDECIDED, never a checker crash - as for theory methods called directly"""
+        try:
+            return m(self, *args, **kwargs)
+        except (AttributeError, IndexError, KeyError, TypeError) as e:
+            if _raised_inside_theory(e):
+                raise Unsupported(f"theory model of {getattr(fn, '__qualname__', getattr(fn, '__name__', fn))} cannot handle this call (a value outside its vocabulary): {type(e).__name__}: {e}")
+            raise
 
     def call_callback(self, cb: SymCallable, args, kwargs):
         idx = len(cb.calls)
